@@ -1,15 +1,23 @@
 /- Line-protocol driver for the C04 model (ForML.Model.Persist).
 
-  in : (case <comp> <perf> <sink: true|false> (<action> ...))
-         comp   = (comp ((uid gid tag stateful trained) ...) ((pub sub) ...) applyHead applyTail trainHead trainTail)
+  in : (case <comp> <perf> <sink: true|false> (<action> ...) <copyTail>)
+         copyTail = the apply tail as `Segment.copy` resolves it (a dangling `Future` tail stands for its publisher)
+         comp   = (comp ((uid gid tag stateful trained) ...) ((pub sub oport iport) ...) applyHead applyTail trainHead trainTail)
+                  subscriptions per publisher in `for port in node.output for s in port` order, with the publisher's
+                  output port index and the subscriber's input port (Apply(i) = i, Train = 1000, Label = 1001)
          perf   = (error) | <comp>
          action = (train|apply|perftrack|serve  none|<generation>  run  hp  shift  <crash>  <race>)
            crash  = none | <k>: (train) the process dies inside its commit, <k> micro-steps completed (a proper prefix)
            race   = none | (run hp): another process re-trains and commits after the first state load of this action
        every action runs on the case renamed by `+ shift` (uids and gids): a fresh expansion
-  out: (ok (wf <plain> <perf> (<the conjuncts of wfPlain> <tailClean>)) (ptags <tag|none> ...) (<step> ...) (perfmodel agree|differ|both-refuse|impl-refuses|model-refuses))
-         perfmodel: the perftrack composition derived in the model (`Comp.perfOf`) against the extracted one: do they
-         persist the same occurrences position by position / are both refused
+       (expr <e> <sink: true|false> (<action> ...))   e = (m|a|t|l tag stateful) | (seq e e) | (par e e merger) — mapper, apply-only, train-only, label step:
+         the same report (wf, ptags, steps) for the composition the model expands itself (`compOf`, PersistExpr.lean)
+  out: (ok (wf <plain> <perf> (<the conjuncts of wfPlain> <tailClean>)) (ptags <tag|none> ...) (<step> ...)
+           (perfmodel <mech> <spec>) (copy <copyFaithful> <portsOk> <number of mapper paths|error>))
+         perfmodel: the perftrack composition derived in the model against the extracted one — do they persist the same
+         occurrences position by position / are both refused (agree|differ|both-refuse|impl-refuses|model-refuses);
+         <mech>: derived with the copy as `Traversal.copy` produces it (`Comp.perfMech`), <spec>: with the
+         order-preserving copy (`Comp.perfOf`)
          step = (ok <number of generations afterwards> (<obs> ...)) | (error <name>)
          obs  = (a tag hp <state>) | (t tag hp <state>)       state = none | (tag run hp none|(ptag prun))
 -/
@@ -17,6 +25,8 @@ import ForML.Model.Sexp
 import ForML.Model.Persist
 import ForML.Model.PersistCopy
 import ForML.Model.PersistCommit
+import ForML.Model.PersistTraverse
+import ForML.Model.PersistExpr
 open ForML ForML.Persist
 
 def bool? : Sexp → Option Bool
@@ -28,18 +38,19 @@ def node? : Sexp → Option Node
   | .list [u, g, t, s, tr] => do pure ⟨← u.nat?, ← g.nat?, ← t.nat?, ← bool? s, ← bool? tr⟩
   | _ => none
 
-def edge? : Sexp → Option (Nat × Nat)
-  | .list [p, s] => do pure (← p.nat?, ← s.nat?)
+def edge? : Sexp → Option PEdge
+  | .list [p, s, o, i] => do pure ⟨← p.nat?, ← s.nat?, ← o.nat?, ← i.nat?⟩
   | _ => none
 
-def comp? : Sexp → Option Comp
+def comp? : Sexp → Option (Comp × List PEdge)
   | .list [.atom "comp", .list ns, .list es, ah, at_, th, tt] => do
-    pure ⟨← ns.mapM node?, ← es.mapM edge?, ← ah.nat?, ← at_.nat?, ← th.nat?, ← tt.nat?⟩
+    let pe ← es.mapM edge?
+    pure (⟨← ns.mapM node?, pe.map (fun e => (e.pub, e.sub)), ← ah.nat?, ← at_.nat?, ← th.nat?, ← tt.nat?⟩, pe)
   | _ => none
 
 def perf? : Sexp → Option (Except Err Comp)
   | .list [.atom "error"] => some (.error .topology)
-  | x => (comp? x).map .ok
+  | x => (comp? x).map (fun r => .ok r.1)
 
 def kind? : Sexp → Option Kind
   | .atom "train" => some .train
@@ -88,59 +99,79 @@ def errName : Err → String
   | .assembly => "assembly"
   | .topology => "topology"
 
-/-- the registry after the action: a training that dies inside its commit publishes nothing it has not completed
-(`crashedCommit`: the micro-steps on the store of directories); a racing re-training commits on top of the registry
-the action started from (the action's own loads are pinned: `C04_generation_pinned`) -/
-def settle (cs : Case) (reg reg' : Registry) (a : Action) (x : Extra) : Registry :=
-  let afterCrash := match x.crash with
-    | none => reg'
-    | some k =>
-      match reg'.drop reg.length with
-      | [g] =>
-        let total := (trainOps (reg.length + 1) g.run (g.states.map (fun o => (0, o)))).length
-        crashedCommit reg g (min k (total - 1))
-      | _ => reg'
-  match x.race with
-  | none => afterCrash
-  | some (r, h) =>
-    match step (cs.rename (· + x.shift + 500) (· + x.shift + 500)) afterCrash ⟨.train, none, r, h⟩ with
-    | .ok (reg'', _) => reg''
-    | .error _ => afterCrash
+/-- the fault as the model's histories take it (`Persist.settle`): a training that died inside its commit completed a
+proper prefix of the micro-steps; the racing re-training works on its own fresh expansion -/
+def faultOf (reg reg' : Registry) (x : Extra) : Fault where
+  crash := x.crash.map (fun k =>
+    match reg'.drop reg.length with
+    | [g] => min k ((commitOps reg g).length - 1)
+    | _ => k)
+  race := x.race.map (fun r => (r.1, r.2, ((· + x.shift + 500), (· + x.shift + 500))))
 
 def runActions (cs : Case) : Registry → List (Action × Extra) → List Sexp
   | _, [] => []
   | reg, (a, x) :: rest =>
     match step (cs.rename (· + x.shift) (· + x.shift)) reg a with
-    | .error e => .list [.atom "error", .atom (errName e)] :: runActions cs (settle cs reg reg a x) rest
+    | .error e => .list [.atom "error", .atom (errName e)] :: runActions cs (settle cs reg reg (faultOf reg reg x)) rest
     | .ok (reg', obs) =>
-      let reg'' := settle cs reg reg' a x
+      let reg'' := settle cs reg reg' (faultOf reg reg' x)
       .list [.atom "ok", Sexp.ofNat reg''.length, .list (obs.map obsSexp)] :: runActions cs reg'' rest
 
 /-- the extracted perftrack composition against the one the model derives from the plain composition -/
-def perfAgrees (plain : Comp) (closed : Bool) (perf : Except Err Comp) : String :=
-  match plain.perfOf (· + 500000) closed, perf with
+def perfAgrees (derived perf : Except Err Comp) : String :=
+  match derived, perf with
   | .ok p, .ok q => if p.persistentTags == q.persistentTags then "agree" else "differ"
   | .error _, .error _ => "both-refuse"
   | .ok _, .error _ => "impl-refuses"
   | .error _, .ok _ => "model-refuses"
 
+def wfSexp (cs : Case) : Sexp :=
+  let plain := cs.plain
+  .list [.atom "wf", Sexp.ofBool plain.wfPlain, Sexp.ofBool cs.wfPerf,
+    .list [Sexp.ofBool plain.tagsConsistent, Sexp.ofBool plain.uidsDistinct, Sexp.ofBool plain.trainedStateful,
+      Sexp.ofBool plain.trainersVisited, Sexp.ofBool (plain.appliedDerived plain.applyHead plain.applyTail),
+      Sexp.ofBool (plain.appliedDerived plain.trainHead plain.trainTail),
+      Sexp.ofBool (plain.noTrainer plain.applyHead plain.applyTail), Sexp.ofBool plain.tailClean]]
+
+def ptagsSexp (c : Comp) : Sexp :=
+  .list (.atom "ptags" :: c.persistentTags.map (fun t => match t with
+    | some t => Sexp.ofNat t
+    | none => .atom "none"))
+
+/-- expression of the grammar of Model/PersistExpr.lean -/
+partial def pexpr? : Sexp → Option PExpr
+  | .list [.atom "m", t, s] => do pure (.mapper (← t.nat?) (← bool? s))
+  | .list [.atom "a", t, s] => do pure (.applyOnly (← t.nat?) (← bool? s))
+  | .list [.atom "t", t, s] => do pure (.trainOnly (← t.nat?) (← bool? s))
+  | .list [.atom "l", t, s] => do pure (.labelOp (← t.nat?) (← bool? s))
+  | .list [.atom "seq", a, b] => do pure (.seq (← pexpr? a) (← pexpr? b))
+  | .list [.atom "par", a, b, m] => do pure (.par (← pexpr? a) (← pexpr? b) (← m.nat?))
+  | _ => none
+
 def stepC04 : Sexp → Sexp
-  | .list [.atom "case", c, p, snk, .list acts] =>
-    match comp? c, perf? p, bool? snk, acts.mapM action? with
-    | some plain, some perf, some closed, some acts =>
+  | .list [.atom "case", c, p, snk, .list acts, ct] =>
+    match comp? c, perf? p, bool? snk, acts.mapM action?, ct.nat? with
+    | some (plain, pe), some perf, some closed, some acts, some copyTail =>
       let cs : Case := ⟨plain, perf⟩
-      .list [.atom "ok",
-        .list [.atom "wf", Sexp.ofBool plain.wfPlain, Sexp.ofBool cs.wfPerf,
-          .list [Sexp.ofBool plain.tagsConsistent, Sexp.ofBool plain.uidsDistinct, Sexp.ofBool plain.trainedStateful,
-            Sexp.ofBool plain.trainersVisited, Sexp.ofBool (plain.appliedDerived plain.applyHead plain.applyTail),
-            Sexp.ofBool (plain.appliedDerived plain.trainHead plain.trainTail),
-            Sexp.ofBool (plain.noTrainer plain.applyHead plain.applyTail), Sexp.ofBool plain.tailClean]],
-        .list (.atom "ptags" :: plain.persistentTags.map (fun t => match t with
-          | some t => Sexp.ofNat t
-          | none => .atom "none")),
+      -- `Segment.copy` resolves a dangling `Future` tail to the publisher it is registered with (`copyTail`)
+      let toCopy : Comp := { plain with applyTail := copyTail }
+      .list [.atom "ok", wfSexp cs, ptagsSexp plain,
         .list (runActions cs [] acts),
-        .list [.atom "perfmodel", .atom (perfAgrees plain closed perf)]]
-    | _, _, _, _ => .atom "bad-op"
+        .list [.atom "perfmodel", .atom (perfAgrees (toCopy.perfMech (· + 500000) closed pe) perf),
+          .atom (perfAgrees (plain.perfOf (· + 500000) closed) perf)],
+        .list [.atom "copy", Sexp.ofBool (toCopy.copyFaithful pe), Sexp.ofBool (plain.portsOk pe),
+          match toCopy.mpaths with
+          | .ok ps => Sexp.ofNat ps.length
+          | .error _ => .atom "error"]]
+    | _, _, _, _, _ => .atom "bad-op"
+  -- the composition the model itself expands from the expression (`compOf`), same report
+  | .list [.atom "expr", e, snk, .list acts] =>
+    match pexpr? e, bool? snk, acts.mapM action? with
+    | some e, some sink, some acts =>
+      let plain := compOf e sink
+      let cs : Case := ⟨plain, plain.perfOf (· + 500000) sink⟩
+      .list [.atom "ok", wfSexp cs, ptagsSexp plain, .list (runActions cs [] acts)]
+    | _, _, _ => .atom "bad-op"
   | _ => .atom "bad-op"
 
 def main : IO Unit := driverLoop stepC04
